@@ -45,15 +45,20 @@ def trace_of(d, psids, splits, resets_at_restart=True):
     state = {}
     for inc, psid in enumerate(psids):
         evs = read_events(os.path.join(d, psid + ".events"))
-        if inc > 0 and resets_at_restart:
+        if inc > 0 and resets_at_restart and evs is not None:
             # a new mrp incarnation: jobs that were running or failed when the
             # previous one ended are reset (killed / orphan-checked) before they
             # may start again; done jobs must never be reset
-            for jid, st in list(state.items()):
+            for jid, st in sorted(state.items()):
                 if st in ("running", "failed"):
                     events.append(("EReset", jid))
                     state[jid] = "idle"
+        faulted = set()
         for t, n, kind, jid, rest in evs:
+            if kind == "end" and jid in faulted:
+                # the job wrote bad outputs and exited normally: mrp records the
+                # failure, the process's own 'end' record is not a completion
+                continue
             if kind == "start":
                 path, fork, chunk, phase = parse_id(jid)
                 stage = rest[0]
@@ -74,6 +79,7 @@ def trace_of(d, psids, splits, resets_at_restart=True):
             elif kind == "fault":
                 events.append(("EFail", jid))
                 state[jid] = "failed"
+                faulted.add(jid)
     return jobs, events
 
 
